@@ -369,8 +369,24 @@ def rule_R11_2(ctx):
     return r
 
 
+def rule_R11_6(ctx):
+    import c05
+    r = c05.rule_R05_3(ctx)
+    r.rule = "R11.6"
+    r.title = ("concatenation and range reads yield a sequence of their own: "
+               "every list value is built around a newly allocated cell")
+    r.necessary_for = ("if `s + t` or `s[a:b]` can be one of its operands, a later "
+                       "`r[i] = v` changes positions of that operand too")
+    for v in r.violations:
+        v.rule = "R11.6"
+        v.key = v.key.replace("R05.3", "R11.6", 1)
+    r.violations = [v for v in r.violations if "List" in v.key]
+    return r
+
+
 def run(ctx):
-    return [rule_R11_1(ctx), rule_R11_2(ctx), rule_R11_3(ctx), rule_R11_4(ctx), rule_R11_5(ctx)]
+    return [rule_R11_1(ctx), rule_R11_2(ctx), rule_R11_3(ctx), rule_R11_4(ctx), rule_R11_5(ctx),
+            rule_R11_6(ctx)]
 
 
 META = {
